@@ -1,6 +1,9 @@
 import Zc.Proofs.SurviveHost
 import Zc.Proofs.SurviveComp
 import Zc.Proofs.SurviveLive
+import Zc.Proofs.SurviveTimersC
+import Zc.Proofs.SurviveFlush
+import Zc.Proofs.BitmapIters
 import Zc.Props.C15Route
 import Zc.Props.C02
 /-! # C15 — a running instance survives any datagram stream
@@ -130,12 +133,12 @@ character strings ≤ 255 bytes and NSEC type lists well formed (`MsgSafe`). -/
 theorem C15_encoder_total (m : Encode.Msg) (hm : MsgSafe m) : ∃ pks, Encode.packets m = .ok pks :=
   packets_total m hm
 
-/-- **The legacy-unicast reply can always be built**: whatever datagram the query came in, echoing
+/-- **The legacy-unicast reply can always be built**: whatever datagram (of at most 8966 bytes, what the listener lets through) the query came in, echoing
 the questions of the decoded object next to any safe answer set yields datagrams — the D8 raise
 site is unreachable, and so is every other raise site of the encoder. -/
-theorem C15_echo_total (data : Bytes) (p : Parsed) (h : (parse data).out = .ok p) (a : AnswerSet) (ha : SetSafe a) (u : Bool) :
+theorem C15_echo_total (data : Bytes) (hlen : data.length ≤ 8966) (p : Parsed) (h : (parse data).out = .ok p) (a : AnswerSet) (ha : SetSafe a) (u : Bool) :
     ∃ pks, Encode.packets (unicastMsg a u p.questions p.hdr.id) = .ok pks := by
-  obtain ⟨p', hp', hk⟩ := parse_pkt data 0
+  obtain ⟨p', hp', hk⟩ := parse_pkt data 0 hlen
   rw [h] at hp'
   cases hp'
   exact packets_total _ (unicastMsg_safe a u p.questions p.hdr.id ha (questions_ok hk) hk.2.2.2.1)
@@ -180,8 +183,9 @@ theorem C15_history_partial {β : Type} {D : Down σ ω} {I : σ → Prop} (hD :
 `Survive.Comp.down` instantiates the downstream with the record manager + cache of C05/C06
 (`Zc.ingest` over `Cache.ops`), the browser callbacks of C04 (`Browser.updateRecords`/`complete`), the
 registry and answer computation of C03 (`Zc.respond`), `_add_answers_additionals` (`packetize`) and
-the text ↔ wire conversion of names.  What remains uninterpreted is `Survive.Comp.Rest`: the listeners
-that are not browsers (lookups, user listeners, scheduler bookkeeping, `notify_all`), the
+the text ↔ wire conversion of names, the lookups of C18 (`Lookup.processAll`) and the browsers' scheduler
+bookkeeping of C10 (`Sched2.reschedule2` / `cancel2`).  What remains uninterpreted is `Survive.Comp.Rest`: the
+listeners that are neither browsers nor lookups (user listeners, `notify_all`), the
 `_QueryResponse` routing with the question history, and `async_add` of the two queues. -/
 
 section composed
@@ -195,6 +199,15 @@ The `_remove_key` sites (`del cache[key][record]` for a record that is not there
 theorem C15_cache_total {c : Cache} (h : ∃ s, Refines lower c s ∧ Flat.WF lower s) (now : Ms) (recs : List Rec) :
     ∃ out, Zc.ingest lower (Cache.ops lower) c now recs = .ok out ∧ ∃ s', Refines lower out.cache s' ∧ Flat.WF lower s' :=
   cache_ingest_ok lower h now recs
+
+/-- **The browsers' scheduler bookkeeping never raises** (C10's two-container model `Sched2` composed in):
+for every list of `(new, old)` pairs handed to `async_update_records`, every scheduler satisfying the
+dict/heap invariant `HD` runs all its `reschedule_ptr_first_refresh` / `cancel_ptr_refresh` calls without
+`KeyError` (the `del self._next_scheduled_for_alias[alias]` site) and satisfies `HD` again. -/
+theorem C15_scheduler_total (now : Ms) (pairs : List (Rec × Option Rec)) (ss : List (Sched.Cfg × Sched2.S2))
+    (h : ∀ cs ∈ ss, Sched2.Inv2 cs.2) :
+    ∃ ss', schedsStep lower possible now pairs ss = .ok ss' ∧ ∀ cs ∈ ss', Sched2.Inv2 cs.2 :=
+  schedsStep_ok lower possible now pairs ss h
 
 /-- **The three component obligations of `DownOK` hold of the composition**, given the three residual
 assumptions about `Rest` (`ListenersOK`, `RouteOK`, `QueueOK`).  Discharged here: the record manager
@@ -255,7 +268,7 @@ def exRestAll : Rest Unit String := { exRest with route := fun r _ _ _ dict => .
 example : RouteOK exRestAll (fun _ => True) :=
   fun r0 _ _ _ _ _ => ⟨r0, _, rfl, trivial, by intro x hx; simpa [dictRecords, exRestAll] using hx⟩
 
-example : CInv lower ettl (fun _ : Unit => True) ⟨{}, [], [], {}, none, ()⟩ := CInv.init lower ettl _ () trivial
+example : CInv lower ettl (fun _ : Unit => True) ⟨{}, [], [], [], {}, [], [], none, ()⟩ := CInv.init lower ettl _ () trivial
 
 end composed
 
@@ -397,7 +410,7 @@ theorem C15_announcement_reaches_browser_partial {β : Type} (hL : ListenersOK R
       Out.down (COut.callback i ⟨.added, t, alias⟩) ∈ out := by
   have hD := C15_down_composed lower possible ettl R Iρ hL hR hQ
   obtain ⟨hI1, hL1⟩ := C15_after_history hD other hO d0 h0 bs s1 o1 hrun
-  obtain ⟨p', hp', hk⟩ := parse_pkt data now
+  obtain ⟨p', hp', hk⟩ := parse_pkt data now hsize
   rw [hp] at hp'
   cases hp'
   obtain ⟨d', out, i, hi, hmem⟩ := comp_ingest_added lower possible ettl R Iρ hL hI1 ⟨data, now, p, none⟩ hk hw hty hrd hlive hnew hb ht hposs
@@ -446,6 +459,110 @@ theorem C15_query_reaches_responder_partial {β : Type} (hL : ListenersOK R Iρ)
 
 end keeps_working_composed
 
+/-! ## The timer blocks that build packets from cache content
+
+`C15_history_*` above take `hO`: every block that is not a datagram arrival or a deferred-query timer
+preserves the invariant without raising.  Two of those blocks write what datagrams left in the cache into
+new packets and are therefore part of "no exception escapes into the event loop, whatever datagrams
+arrive" (D8b raised in the first).  They are modelled (`Model/SurviveTimers.lean`) from C10's scheduler
+(`Sched2.step2 … fire`), C13's `QueryGen.serviceQuery` + bucket grouping, C18's `Lookup.genQuery` and C01's
+encoder, and proved total.  (The third, the multicast answer queue flush, lives on the routing residue:
+`Props/C15Route.lean`.) -/
+
+section timers
+open Zc.Survive.Comp
+variable (lower : String → String) (possible : String → List String) (ettl : Nat)
+variable {ρ ω' : Type} (R : Rest ρ ω') (Iρ : ρ → Prop) (sz : QueryGen.QOut → Nat)
+
+/-- **A browser's query timer never raises.**  Under `CInv` (names and numeric fields of every cached record
+are what the decoder produces: `names`, `fields`; the scheduler's dict/heap invariant: `scheds`) and `TInv`
+(the browsed types are encodable names — data invariant —, and so are the names in the scheduler's heap),
+with the text-layer identity and a clock that has not run backwards past a cached record's creation:
+`_process_startup_queries` / `_process_ready_types`, `generate_service_query` with its known answers from the
+cache, the bucket grouping and `packets()` of every bucket all return, for every scheduler index, `done` flag,
+clock reading and bucket-size estimate; both invariants hold afterwards. -/
+theorem C15_browser_timer_total (glue : TextGlue) {d : CState ρ} (hI : CInv lower ettl Iρ d) (hT : TInv d)
+    (i : Nat) (done : Bool) (now : Ms) (hclock : ∀ r ∈ d.cache.allRecs, r.created ≤ QueryGen.browserAnswerTime now) :
+    ∃ d' pks, browserFire lower sz d i done now = .ok (d', pks) ∧ CInv lower ettl Iρ d' ∧ TInv d' :=
+  browserFire_ok lower ettl Iρ sz glue hI hT i done now hclock
+
+/-- **A lookup's query transmission never raises** (same hypotheses; `TInv.lookups`: the names the lookup's
+`ServiceInfo` holds — given by the application or learnt from SRV records — are encodable). -/
+theorem C15_lookup_query_total (glue : TextGlue) {d : CState ρ} (hI : CInv lower ettl Iρ d) (hT : TInv d)
+    (j : Nat) (now : Ms) (qu : Bool) (hclock : ∀ r ∈ d.cache.allRecs, r.created ≤ QueryGen.lookupAnswerTime now) :
+    ∃ d' pks, lookupQuery lower d j now qu = .ok (d', pks) ∧ CInv lower ettl Iρ d' ∧ TInv d' :=
+  lookupQuery_ok lower ettl Iρ glue hI hT j now qu hclock
+
+/-- **Survival, every history, with the packet-building timer blocks inside the quantifier** (`_partial`:
+`ListenersOK`, `RouteOK`, `QueueOK`, `TextGlue`, and `hO` now only for the *residual* blocks — registration API,
+browser / lookup start and stop, cache purge, the queues' timers).  From any state satisfying `CInv ∧ TInv`,
+every finite interleaving of datagram arrivals (any bytes, source, port, time), deferred-query timers, browser
+query timers, lookup query transmissions and residual blocks either runs to its end with both invariants in
+force, or contains a deferred-query timer block for an address whose timer is not armed at that point. -/
+theorem C15_history_timers_partial {β : Type} (glue : TextGlue) (hL : ListenersOK R Iρ) (hR : RouteOK R Iρ) (hQ : QueueOK R Iρ)
+    (other' : CState ρ → β → Except PyExc (CState ρ × List (COut ω')))
+    (hO : ∀ d b, CTInv lower ettl Iρ d → ∃ d' o, other' d b = .ok (d', o) ∧ CTInv lower ettl Iρ d')
+    (d0 : CState ρ) (h0 : CTInv lower ettl Iρ d0) (bs : List (Survive.Block (TimerBlock ⊕ β))) :
+    (∃ s' out, run (Comp.down lower possible ettl R) (otherT lower sz other') (State.init d0) bs = .ok (s', out) ∧
+        CTInv lower ettl Iρ s'.down ∧ LInv s') ∨
+      (∃ pre addr post s1 o1, bs = pre ++ Survive.Block.tcFire addr :: post ∧
+        run (Comp.down lower possible ettl R) (otherT lower sz other') (State.init d0) pre = .ok (s1, o1) ∧
+        alGet addr s1.timers = none) :=
+  run_ok' (comp_downOK_T lower possible ettl R Iρ glue hL hR hQ) sendOK_safe (otherT lower sz other')
+    (otherT_ok lower ettl Iρ sz glue other' hO) bs (State.init d0) h0 (LInv.init d0)
+
+/-- the extended invariant holds initially -/
+example (r0 : ρ) (h : Iρ r0) : CTInv lower ettl Iρ ⟨{}, [], [], [], {}, [], [], none, r0⟩ :=
+  ⟨CInv.init lower ettl Iρ r0 h,
+   ⟨by intro cs hcs; simp at hcs, by intro cs hcs; simp at hcs, by intro i hi; simp at hi⟩⟩
+
+end timers
+
+/-! ### the multicast answer queue flush, on the routing residue of C12 -/
+
+section flush
+open Zc.Survive.Comp Zc.Survive.Route
+variable (lower : String → String) (possible : String → List String) (ettl : Nat)
+variable (attrib : Question → Rec → Bool) (orc : Route.Oracle)
+variable {ρ₀ ω' : Type} (B : Route.Base ρ₀ ω') (I₀ : ρ₀ → Prop) (sz : QueryGen.QOut → Nat)
+
+/-- **The multicast answer queue flush never raises** (`MulticastOutgoingQueue.async_ready` = C12's `Queue.ready`, then
+`_add_answers_additionals` + `packets()`): under the full invariant — `FInv`: every record object behind an id of the queues was
+handed out by the registry while `RegSafe` held — the batch is a safe message; the table is unchanged, both queues keep C12's
+clock-free invariant `QShape` (one timer iff non-empty, strictly increasing `send_after`). -/
+theorem C15_queue_flush_total {d : CState (ρ₀ × Route.RState)} (hI : CFInv lower ettl I₀ d) (delay : Bool) (now : Ms) :
+    ∃ d' pks, flushStep lower d delay now = .ok (d', pks) ∧ CFInv lower ettl I₀ d' :=
+  flushStep_ok lower ettl I₀ hI delay now
+
+/-- **Survival, every history, all three packet-building timer blocks inside the quantifier** (`_partial`).  Over the
+composite whose residue is C12's reply model: assumptions left are `BaseOK` (user `RecordUpdateListener`s, waking lookup
+futures, `async_notify_all`), the text-layer identity `TextGlue`, the data invariants inside `CFInv` (`RegSafe`, `TypesSafe`,
+the lookups' given names) and `hO` for the *residual* blocks (registration API, browser / lookup start and stop, cache purge).
+Every finite interleaving of datagram arrivals, deferred-query timers, browser query timers, lookup query transmissions,
+queue flushes and residual blocks runs to its end with the invariant in force — or contains a deferred-query timer block for
+an address whose timer is not armed at that point. -/
+theorem C15_history_all_timers_partial {β : Type} (glue : TextGlue) (hB : Route.BaseOK B I₀)
+    (other' : CState (ρ₀ × Route.RState) → β → Except PyExc (CState (ρ₀ × Route.RState) × List (COut ω')))
+    (hO : ∀ d b, CFInv lower ettl I₀ d → ∃ d' o, other' d b = .ok (d', o) ∧ CFInv lower ettl I₀ d')
+    (d0 : CState (ρ₀ × Route.RState)) (h0 : CFInv lower ettl I₀ d0)
+    (bs : List (Survive.Block (TimerBlock ⊕ (FlushBlock ⊕ β)))) :
+    (∃ s' out, run (Comp.down lower possible ettl (Route.rest lower attrib orc B)) (otherF lower sz other') (State.init d0) bs = .ok (s', out) ∧
+        CFInv lower ettl I₀ s'.down ∧ LInv s') ∨
+      (∃ pre addr post s1 o1, bs = pre ++ Survive.Block.tcFire addr :: post ∧
+        run (Comp.down lower possible ettl (Route.rest lower attrib orc B)) (otherF lower sz other') (State.init d0) pre = .ok (s1, o1) ∧
+        alGet addr s1.timers = none) :=
+  run_ok' (comp_downOK_F lower possible ettl attrib orc B I₀ glue hB) sendOK_safe (otherF lower sz other')
+    (otherF_ok lower ettl I₀ sz glue other' hO) bs (State.init d0) h0 (LInv.init d0)
+
+end flush
+
+/-- **`_read_bitmap` does linear work per call** (C02 review F5): entered at offset `off` of a datagram of `len` bytes it runs
+its `while` loop at most `(len − off)/2 + 1` times and its inner byte loop at most `len − off` times in total, whatever `end` the
+rdlength field claims.  Stage C compares both counters with the real code on every `_read_bitmap` call of the fuzz streams. -/
+theorem C15_bitmap_work (buf : Bytes) (off end_ : Nat) :
+    (DecodeLib.bitmapWork buf off end_).1 ≤ (buf.length - off) / 2 + 1 ∧ (DecodeLib.bitmapWork buf off end_).2 ≤ buf.length - off :=
+  DecodeLib.readBitmapC_bound buf end_ (buf.length + 1) { off := off }
+
 /-- the full-strength statement of DESIGN §7 (no hypotheses on the downstream components): not proved
 here — it needs the C03/C05/C06/C04/C12 models composed into one `Down` instance. -/
 def C15_total_full (D : Down σ ω) (I : σ → Prop) : Prop :=
@@ -482,7 +599,7 @@ example : (match recv exDown (State.init ()) ([0, 7, 0, 0, 0, 1, 0, 0, 0, 0, 0, 
 
 /-- the invariant is not empty: a state with a deferred packet and its armed timer satisfies `LInv` -/
 example : ∃ k : Pkt, PktOK k ∧ LInv (σ := Unit) ⟨none, 0, none, [("10.0.0.9", [k])], [("10.0.0.9", ⟨450, 5353⟩)], ()⟩ := by
-  obtain ⟨p, _, hk⟩ := parse_pkt [0, 0, 2, 0, 0, 0, 0, 0, 0, 0, 0, 0] 0
+  obtain ⟨p, _, hk⟩ := parse_pkt [0, 0, 2, 0, 0, 0, 0, 0, 0, 0, 0, 0] 0 (by decide)
   refine ⟨_, hk, ⟨?_, ?_⟩⟩
   · intro a t ht
     by_cases ha : "10.0.0.9" = a
